@@ -122,18 +122,41 @@ def obs_wrapper(case):
 _KEEP = []
 
 
-def _reader_items(stream, kw):
+def _reader_items(stream, kw, how=0):
+    """how: 0 plain; 1 the application polls - it writes a poll request through the reader's stream after every item; 2 the socket is
+    handed over already wrapped (SocketWrapper made by the caller); 3 a first reader delivers one item, a second reader built on the
+    first one's datastream delivers the rest"""
     from pyubx2 import UBXReader
 
     items, pd = [], []
     end = "eof"
     try:
-        rdr = UBXReader(stream, **kw)
+        if how == 2 and "bufsize" in kw:
+            from pyubx2.socket_wrapper import SocketWrapper
+
+            kw2 = dict(kw)
+            stream = SocketWrapper(stream, bufsize=kw2.pop("bufsize"))
+            rdr = UBXReader(stream, **kw2)
+        else:
+            rdr = UBXReader(stream, **kw)
         _KEEP.append(rdr)  # earlier readers / connections stay referenced while later ones are opened (a reconnecting application)
         del _KEEP[:-2]
+        if how == 3 and "bufsize" in kw:
+            raw, parsed = rdr.read()
+            if raw is not None:
+                items.append(bytes(raw))
+                pd.append(rd.digest(parsed))
+                kw2 = dict(kw)
+                kw2.pop("bufsize")
+                rdr = UBXReader(rdr.datastream, **kw2)
         for raw, parsed in rdr:
             items.append(bytes(raw))
             pd.append(rd.digest(parsed))
+            if how == 1 and hasattr(rdr.datastream, "write"):
+                try:
+                    rdr.datastream.write(b"\xb5\x62\x0a\x04\x00\x00\x0e\x34")
+                except Exception:  # noqa: BLE001 - a failing send is the outbound side's business
+                    pass
     except rd.HangGuard:
         end = "hang"
     except Exception as ex:  # noqa: BLE001
@@ -195,7 +218,7 @@ def obs_reader(case):
         sock = (ScriptSockTLS if case.get("tls") else ScriptSock)(segments(S, case["cuts"]), case["end"], events, dgram=bool(case.get("dgram")),
                                                                   delay=case.get("delay", 0.0), timeout=case.get("timeout"))
         try:
-            sitems, spd, send = _reader_items(sock, kw)
+            sitems, spd, send = _reader_items(sock, kw, how=case.get("how", 0))
         finally:
             sock.close()
     it = rd.Interner()
